@@ -46,6 +46,24 @@ add("C05", "exploration",
     "Same trusted base as C04; a-tag references are exercised on addressable kinds only (as the property's quantifier says).",
     "DESIGN.md section 4, C05")
 
+add("C06", "exploration",
+    "runtime monitoring: executable model of the stored-and-live set + query-specification oracle over seeded batch histories against the generated SQL on real SQLite; race detector",
+    "Every batch of every generated history is inserted with insertEvents into a real (in-memory) SQLite database and a filter panel is answered by queryEvent after each batch; every answer must be an allowed answer over the model's live set with all seven fields identical to what was inserted. Held on the histories/queries counted in the evidence." + RACE,
+    "Trusts kit/sqlmodel.go and kit/storespec.go; 64-bit key collisions are detected and such histories discarded; sub-cases the statement leaves open (equal created_at on one address, d-less addressable events, a-tags naming plain replaceable kinds, an empty filter list) are not generated.",
+    "DESIGN.md section 4, C06")
+
+add("C14", "fault_enumeration",
+    "runtime monitoring with fault injection: a database/sql driver wrapper numbers the driver calls of a batch and fails, cancels or kills the process at every call index; model comparison after every attempt, retry, repetition and reopen; race detector",
+    "For the chosen batch of each history every driver call (begin, each prepare, every statement exec, commit) is faulted in turn with an injected error and with a context cancellation, and sampled (thorough: all) calls with a process kill in a child process; after each faulted attempt, each retry, the final success, two repetitions and every close/reopen the query panel must equal the model (failed = no-op, returned nil = applied once). Exhaustive over call indexes per enumerated batch; histories are sampled." + RACE,
+    "Trusts the fault driver wrapper (kit/faultsql, forwards every optional interface go-sqlite3 implements) and the SQLite model; faults inside SQLite's own I/O layer are not injected; kill = os.Exit in a child, not power loss.",
+    "DESIGN.md section 4, C14")
+
+add("C16", "exploration",
+    "runtime monitoring: reply-grouping checker over pipelined sessions on CacheHandler/SQLiteHandler, retention and query specification as oracles, dump/restore differential; race detector",
+    "Each generated client message sequence runs as one real session; the reply stream must parse into per-request groups in request order (one OK with the id, events+one EOSE with the sub id, one COUNT, nothing for CLOSE/AUTH); cache OK verdicts are judged by the retention specification and REQ answers by the query specification; Dump->Restore into a fresh cache must answer a 41-list panel identically. Held on the sequences counted in the evidence." + RACE,
+    "Trusts kit/storespec.go, kit/sqlmodel.go; the cache handler's verdict for ephemeral events is not judged (C04 and C16 read differently there); SQLite REQs are issued at quiescence (sentinel row polled).",
+    "DESIGN.md section 4, C16")
+
 NOT_YET = "check not built yet in this revision (work in progress; see DESIGN.md)"
 
 
